@@ -30,7 +30,7 @@ def mean_mass(mol, n, seed):
 
 
 def check(rep):
-    coq = fw.coq_check("C14", ["SrcSysGen"])
+    coq = fw.coq_check("C14", ["SrcSysGen", "SrcSys"])
     quick = rep.tier == "quick"
     rnd = random.Random(rep.seed + 14)
     n_sys = 40 if quick else 300
@@ -39,11 +39,22 @@ def check(rep):
     lines, pend = [], []
     ratio_hist = {}
     for k in range(n_sys):
-        if k % 10 == 3:
+        declared = None
+        if k % 10 == 8:
+            # a declared share of 0 % next to a share left to deduce: the remainder goes to the unspecified component, the 0 % one keeps 0
+            comps = rnd.choice([c for c in EQUAL if len(c) == 3])
+            a = rnd.choice([60.0, 25.0, 87.5])
+            order = rnd.choice([[0.0, a], [a, 0.0]])
+            text = "".join(c + f".|{p}%|" for c, p in zip(comps, order)) + comps[2]
+            declared = order + [100.0 - a]
+            pct = None
+            smw = 2000.0
+        elif k % 10 == 3:
             # a component with a declared share of 0 %, listed first / in the middle: never generated, the others keep their shares
             comps = rnd.choice([c for c in EQUAL if len(c) == 3])
             shares = rnd.choice([[0.0, 60.0, 40.0], [70.0, 0.0, 30.0], [0.0, 25.0, 75.0]])
             text = "".join(c + f".|{p}%|" for c, p in zip(comps, shares))
+            declared = shares
             pct = None
             smw = 2000.0
         elif k % 10 == 7:
@@ -85,6 +96,10 @@ def check(rep):
             rep.fail("oracle", f"pick {j}: position {k} of the component law was drawn but component {ci} was generated ({len(wrong)} of {len(picks)} picks)", ident,
                      expected=f"component {k}", observed=f"component {ci}")
         rel = [float(m.mixture.relative_mass) for m in r.system._molecules]
+        if declared is None and pct is not None and k % 5 == 4:
+            declared = [float(x) for x in pct]
+        if declared is not None and (len(rel) != len(declared) or any(abs(a - b) > 1e-9 for a, b in zip(rel, declared))):
+            rep.fail("oracle", f"the components' shares are {rel}, declared {declared}", ident, expected=declared, observed=rel)
         p_impl = picks[0][2]
         if any(pp[2] != p_impl for pp in picks):
             rep.fail("oracle", "component pick probabilities change during one iteration", ident, expected=p_impl, observed=[pp[2] for pp in picks][:3])
